@@ -71,3 +71,42 @@ pub fn learn_openers() -> Vec<u8> {
 pub fn opcode_from_u8(b: u8) -> Option<OpCodes> {
     num_traits::FromPrimitive::from_u8(b)
 }
+
+/// Build the library's nested element tree from a flat reference token list, independently of the library's own
+/// nesting pass: an opener starts a block whose first branch runs to the matching OP_ELSE or OP_ENDIF and whose second
+/// branch runs to the matching OP_ENDIF (a further OP_ELSE there, and OP_ELSE / OP_ENDIF outside any block, are plain
+/// elements). None when a block is never closed or an opcode byte has no `OpCodes` value.
+pub fn nest_tokens(toks: &[Tok], openers: &[u8]) -> Option<Vec<ScriptBit>> {
+    fn leaf(t: &Tok) -> Option<ScriptBit> {
+        Some(match t {
+            Tok::Op(b) => ScriptBit::OpCode(opcode_from_u8(*b)?),
+            Tok::Push(d) => ScriptBit::Push(d.clone()),
+            Tok::PushData(c, d) => ScriptBit::PushData(opcode_from_u8(*c)?, d.clone()),
+        })
+    }
+    // mode 0 = top level, 1 = first branch, 2 = second branch; returns (elements, terminator seen)
+    fn rec(toks: &[Tok], i: &mut usize, openers: &[u8], mode: u8) -> Option<(Vec<ScriptBit>, u8)> {
+        let mut out = vec![];
+        while *i < toks.len() {
+            let t = &toks[*i];
+            *i += 1;
+            match t {
+                Tok::Op(b) if openers.contains(b) => {
+                    let (pass, term) = rec(toks, i, openers, 1)?;
+                    let fail = if term == OP_ELSE { Some(rec(toks, i, openers, 2)?.0) } else { None };
+                    out.push(ScriptBit::If { code: opcode_from_u8(*b)?, pass, fail });
+                }
+                Tok::Op(b) if *b == OP_ELSE && mode == 1 => return Some((out, OP_ELSE)),
+                Tok::Op(b) if *b == OP_ENDIF && mode != 0 => return Some((out, OP_ENDIF)),
+                t => out.push(leaf(t)?),
+            }
+        }
+        if mode == 0 {
+            Some((out, 0))
+        } else {
+            None
+        }
+    }
+    let mut i = 0;
+    rec(toks, &mut i, openers, 0).map(|x| x.0)
+}
